@@ -25,7 +25,7 @@ CMAKE = 'mesonbuild/modules/cmake.py'
 # quick scope: the modules that produce the generated text the statement lists (build.ninja, intro-*.json, test/install data,
 # configure_file outputs, .pc files) and the option registration they serialise.
 SCOPE = [NINJA, BACKENDS, 'mesonbuild/coredata.py', 'mesonbuild/mintro.py', UNIVERSAL, 'mesonbuild/compilers/compilers.py',
-         INTERP, PKGCONFIG, 'mesonbuild/options.py', 'mesonbuild/build.py', 'mesonbuild/modules/i18n.py']
+         INTERP, PKGCONFIG, 'mesonbuild/options.py', 'mesonbuild/build.py', 'mesonbuild/modules/i18n.py', 'mesonbuild/depfile.py']
 # indexed for attribute / method tables only (callee summaries), not scanned in the quick tier
 INDEX_EXTRA = ['mesonbuild/utils/core.py', 'mesonbuild/environment.py', 'mesonbuild/dependencies/base.py', 'mesonbuild/programs.py',
                'mesonbuild/compilers/__init__.py']
@@ -50,7 +50,9 @@ EXPLANATION = (
     'whose decision table is a strict total order consistent with __eq__. R5 covers every repository class that defines __lt__ (total_ordering classes without __eq__: the constructor-bound '
     'fields stand for the identity). Does NOT decide byte equality across runs (run-time relation), whether serialised state is dumped '
     'before later configure steps mutate objects it aliases (e.g. dump_coredata vs. postconf hooks: run-time aliasing), whether per-machine cache keys carry the machine (DependencyCache) or a result cache key covers every input of the '
-    'cached computation (run_check_cache), lists shared by aliasing between dict entries (add_*_arguments), hash order in the other '
+    'cached computation (run_check_cache), lists shared by aliasing between dict entries (add_*_arguments), leftovers of an earlier '
+    'configure in the build directory that change what the next one emits (e.g. a dangling alias symlink kept because its removal is guarded by '
+    'os.path.exists: file-system state, value level), hash order in the other '
     'mesonbuild/modules/*.py (information in the thorough tier: _qt tools dict, gnome gresource lookup, hotdoc include list - not exercised), '
     'run-state files that no build edge reads and that are rewritten on every configuration by design (intro-*.json, meson-private/*.dat, '
     'depmf.json, install/test pickles), the stale declaration kept by OptionStore.update_project_options for an unchanged type (C08), '
@@ -482,6 +484,42 @@ def _helper_finishes(ctx: RuleCtx, mod: Module, qual: str, call: ast.Call, finis
     return None
 
 
+def _cm_finishers(ctx: RuleCtx, mod: Module, qual: str, fn: ast.AST, finisher: str, dst_index: int, tmp_index: int, p: str) -> T.List[T.Tuple[ast.With, int]]:
+    """`with helper(final) as P:` where helper is a @contextmanager generator of the same class / module that yields the temporary's
+    name once and, on every normal path after the yield, calls finisher(final-parameter, yielded name): the publication happens when
+    the with block is left normally.  -> [(with statement, index of that item)]."""
+    from ..core import decorator_names
+    out: T.List[T.Tuple[ast.With, int]] = []
+    for w in walk_no_nested(fn):
+        if not isinstance(w, (ast.With, ast.AsyncWith)):
+            continue
+        for idx, item in enumerate(w.items):
+            ce = item.context_expr
+            if not (isinstance(ce, ast.Call) and item.optional_vars is not None and norm(item.optional_vars) == p):
+                continue
+            h = _helper_of(ctx, mod, qual, ce)
+            if h is None or not any(d.split('.')[-1] == 'contextmanager' for d in decorator_names(h[2])):
+                continue
+            m2, q2, f2, is_method = h
+            yields = [y for y in walk_no_nested(f2) if isinstance(y, ast.Yield)]
+            if len(yields) != 1 or yields[0].value is None:
+                continue
+            ytext = _ptext(yields[0].value)
+            bound = {k: _ptext(v) for k, v in _bind_args(ce, f2, is_method).items()}
+            hcfg = CFG(f2)
+            ynodes = hcfg.node_containing(yields[0])
+            good = []
+            for c in walk_no_nested(f2):
+                if isinstance(c, ast.Call) and (attr_chain(c.func) or '').split('.')[-1] == finisher:
+                    pa = _pos_args(ctx, c)
+                    if len(pa) > max(dst_index, tmp_index) and pa[tmp_index] is not None and pa[dst_index] is not None \
+                            and _ptext(pa[tmp_index]) == ytext and bound.get(_ptext(pa[dst_index]), p) != p:
+                        good += hcfg.node_containing(c)
+            if good and ynodes and all(hcfg.must_pass(y, hcfg.exit_return, good, no_exc=True) for y in ynodes):
+                out.append((w, idx))
+    return out
+
+
 def _finished_by(ctx: RuleCtx, mod: Module, qual: str, finisher: str, dst_index: int, tmp_index: int) -> int:
     """Every open(P, 'w') in the function - directly or in a same-class / same-module helper that is handed P - is followed on every
     normal path by finisher(.., P, ..) whose destination differs from P, and only after the writer was closed."""
@@ -512,8 +550,15 @@ def _finished_by(ctx: RuleCtx, mod: Module, qual: str, finisher: str, dst_index:
         if not open_nodes:
             raise Undecided(f'{qual}: open() call not found in the CFG')
         fin_nodes = [n for c in fins for n in cfg.node_containing(c)]
+        cms = _cm_finishers(ctx, mod, qual, fn, finisher, dst_index, tmp_index, p)
+        cm_exit: T.Dict[int, T.Tuple[ast.With, int]] = {}
+        for w, idx in cms:
+            for n in cfg.nodes:
+                if n.kind == 'with_exit' and n.ast is w:
+                    cm_exit[n.id] = (w, idx)
+                    fin_nodes.append(n)
         ok = bool(fin_nodes) and all(cfg.must_pass(on, cfg.exit_return, fin_nodes, no_exc=True) for on in open_nodes)
-        if not fins:
+        if not fins and not cms:
             # absence finding: only when no call the rule cannot read is handed this path (it could publish it)
             unread = _unread_calls_on(fn, {p}, [op])
             if unread:
@@ -532,11 +577,22 @@ def _finished_by(ctx: RuleCtx, mod: Module, qual: str, finisher: str, dst_index:
             if direct:
                 closes = _close_nodes(cfg, fn, op, qual)
                 early = [fnode for fnode in fin_nodes for on in open_nodes
-                         if cfg.can_reach(on, fnode, no_exc=True) and not cfg.must_pass(on, fnode, closes, no_exc=True)]
+                         if fnode.id not in cm_exit and cfg.can_reach(on, fnode, no_exc=True) and not cfg.must_pass(on, fnode, closes, no_exc=True)]
+                for fnode in fin_nodes:
+                    if fnode.id not in cm_exit:
+                        continue
+                    w, idx = cm_exit[fnode.id]
+                    mine = [j for j, it in enumerate(w.items) if it.context_expr is op]
+                    if mine:
+                        # same `with`: items are left in reverse order, so the file is closed first only if it was entered later
+                        if mine[0] < idx:
+                            early.append(fnode)
+                    elif any(cfg.can_reach(on, fnode, no_exc=True) and not cfg.must_pass(on, fnode, closes, no_exc=True) for on in open_nodes):
+                        early.append(fnode)
             # any other `with <call>(..., P, ...)` is a handle on the same temporary (e.g. a helper that re-opens it for appending)
             holders = 0
             for w in walk_no_nested(fn):
-                if isinstance(w, (ast.With, ast.AsyncWith)) and any(
+                if isinstance(w, (ast.With, ast.AsyncWith)) and not any(w is cw for cw, _ in cms) and any(
                         isinstance(i.context_expr, ast.Call) and i.context_expr is not op and
                         any(norm(a) == p for a in list(i.context_expr.args) + [k.value for k in i.context_expr.keywords]) for i in w.items):
                     holders += 1
@@ -551,6 +607,23 @@ def _finished_by(ctx: RuleCtx, mod: Module, qual: str, finisher: str, dst_index:
                         'unchanged output is replaced on every reconfigure (or a truncated file is published)',
                         early[0].ast if early else op)
     return len(sites)
+
+
+def _finished_by_deep(ctx: RuleCtx, mod: Module, qual: str, finisher: str, dst_index: int, tmp_index: int, depth: int = 0) -> int:
+    """_finished_by, and when the function writes nothing itself: the same obligation in the helpers of its class / module it calls
+    (the whole write-and-publish block extracted into a helper)."""
+    k = _finished_by(ctx, mod, qual, finisher, dst_index, tmp_index)
+    if k or depth >= 2:
+        return k
+    seen: T.Set[str] = set()
+    for c in walk_no_nested(_func(mod, qual)):
+        if isinstance(c, ast.Call):
+            h = _helper_of(ctx, mod, qual, c)
+            if h is not None and h[1] not in seen and h[1] != qual:
+                seen.add(h[1])
+                if _write_opens(h[2]) or _path_writes(h[2]) or depth < 1:
+                    k += _finished_by_deep(ctx, h[0], h[1], finisher, dst_index, tmp_index, depth + 1)
+    return k
 
 
 def _close_nodes(cfg: CFG, fn: ast.AST, op: ast.Call, qual: str) -> T.List[T.Any]:
@@ -588,9 +661,9 @@ def _r3_core(ctx: RuleCtx) -> None:
     n = 0
     for rel, qual in WRITERS:
         mod = ctx.repo.module(rel)
-        k = _finished_by(ctx, mod, qual, 'replace_if_different', 0, 1)
+        k = _finished_by_deep(ctx, mod, qual, 'replace_if_different', 0, 1)
         if k == 0:
-            raise Undecided(f'{rel}:{qual}: no open(..., "w") found in a known writer of configure-time files')
+            raise Undecided(f'{rel}:{qual}: no open(..., "w") found in a known writer of configure-time files or in the helpers it calls')
         n += k
     # further opens-for-writing in the two generator modules must follow the same idiom
     for rel in (PKGCONFIG, CMAKE):
@@ -683,6 +756,14 @@ def _replace_if_different(ctx: RuleCtx) -> None:
         feasible = True
         handler = False
         calls: T.List[ast.Call] = []
+        content_only: T.List[str] = []      # conditions on one file's content alone
+        other_conds: T.List[str] = []       # conditions the rule does not read
+
+        def is_content(x: ast.AST) -> bool:
+            """The content of one of the two files: `f.read()` or a local that was bound to it on this path."""
+            if isinstance(x, ast.Call) and isinstance(x.func, ast.Attribute) and x.func.attr == 'read':
+                return True
+            return isinstance(x, ast.Name) and flags.get(x.id, ('', None))[0] == 'content'
 
         def cmp_polarity(e: ast.AST) -> T.Optional[bool]:
             """True: e holds iff the contents are equal; False: iff they differ; None: e is not the content comparison."""
@@ -691,8 +772,7 @@ def _replace_if_different(ctx: RuleCtx) -> None:
                 return None if r is None else not r
             if isinstance(e, ast.Name) and flags.get(e.id, ('', None))[0] == 'cmp':
                 return bool(flags[e.id][1])
-            if isinstance(e, ast.Compare) and len(e.ops) == 1 and isinstance(e.ops[0], (ast.Eq, ast.NotEq)) \
-                    and all(isinstance(x, ast.Call) and isinstance(x.func, ast.Attribute) and x.func.attr == 'read' for x in (e.left, e.comparators[0])):
+            if isinstance(e, ast.Compare) and len(e.ops) == 1 and isinstance(e.ops[0], (ast.Eq, ast.NotEq)) and all(is_content(x) for x in (e.left, e.comparators[0])):
                 return isinstance(e.ops[0], ast.Eq)
             if isinstance(e, ast.Call) and isinstance(e.func, ast.Name) and mod.has_func(e.func.id) and e.func.id != 'replace_if_different':
                 # a module helper that is handed both paths and whose every `return` is the read-comparison or a literal False
@@ -724,6 +804,8 @@ def _replace_if_different(ctx: RuleCtx) -> None:
                         flags[tg[0].id] = ('const', v.value)
                     elif pol is not None:
                         flags[tg[0].id] = ('cmp', pol)
+                    elif is_content(v):
+                        flags[tg[0].id] = ('content', None)
                     elif isinstance(v, ast.Name) and v.id in flags:
                         flags[tg[0].id] = flags[v.id]
                     else:
@@ -747,10 +829,28 @@ def _replace_if_different(ctx: RuleCtx) -> None:
                         feasible = False
                         break
                     equal = now
+                    continue
+                # a test of one file's content alone (emptiness / length): it says nothing about the two contents being equal
+                inner = e.args[0] if isinstance(e, ast.Call) and attr_chain(e.func) in ('len', 'bool') and len(e.args) == 1 else e
+                if is_content(inner):
+                    content_only.append(short(e, 40))
+                else:
+                    other_conds.append(short(e, 40))
             if ev.kind in ('stmt',) and ev.node is not None:
                 calls += [c for c in walk_no_nested(ev.node) if isinstance(c, ast.Call)]
         if not feasible:
             continue
+        if equal is None and not handler and not other_conds and content_only:
+            # both files were opened (the destination exists), every condition on the path is read, none of them compares the two
+            # contents - and yet the destination is replaced: an unchanged output gets a new mtime whenever that condition holds
+            early = [c for c in calls if attr_chain(c.func) in ('os.replace', 'os.rename', 'shutil.move')]
+            if early:
+                n += 1
+                ctx.violation(mod, 'replace_if_different', f'replace without comparison when {content_only[0]}',
+                              f'on the path [{p.describe()[:140]}] the destination exists and is replaced although the two contents were never compared: '
+                              f'the only test made ({content_only}) looks at one file alone, so an unchanged output (e.g. an empty one) is rewritten on '
+                              'every configure run', early[0])
+                continue
         if equal is None and not handler:
             # neither the comparison outcome nor the missing-destination handler is known on this path: cannot be judged
             raise Undecided(f'replace_if_different: a path on which the outcome of the content comparison is not tested: {p.describe()[:160]}')
@@ -891,6 +991,14 @@ def _opaque_calls(nodes: T.Iterable[ast.AST]) -> T.List[str]:
     return bad
 
 
+R4_ANCHORS = ('Backend.as_meson_exe_cmdline', 'Backend.get_executable_serialisation')     # each judged on its own
+
+
+def _rename_chain(chain: str, rename: T.Dict[str, str]) -> str:
+    head, dot, rest = chain.partition('.')
+    return rename[head] + dot + rest if head in rename else chain
+
+
 class _DigestFacts(T.NamedTuple):
     qual: str
     n_digests: int
@@ -987,18 +1095,43 @@ def _digest_facts(ctx: RuleCtx, sc: T.Optional[SiteScanner], mod: Module, qual: 
     return _DigestFacts(qual, len(digests), len(fed), inputs, origins, helper_calls, findings)
 
 
-def _scratch_name(ctx: RuleCtx, mod: Module, qual: str, required: T.Dict[str, T.Tuple[str, ...]]) -> None:
+def _scratch_name(ctx: RuleCtx, mod: Module, qual: str, required: T.Dict[str, T.Tuple[str, ...]],
+                  rename: T.Optional[T.Dict[str, str]] = None, depth: int = 0,
+                  caller: T.Optional[T.Tuple[Module, str, T.Any, T.Dict[str, ast.AST]]] = None) -> None:
     fn = _func(mod, qual)
     fl = Flow(fn, nested=False)
     opens = _write_opens(fn)
     if not opens:
-        raise Undecided(f'{qual}: scratch file is not opened for writing here any more')
+        # E1/E5: the block that names and writes the scratch file was extracted into a helper of the class / module; the required
+        # inputs are spelled in the caller's names, so the helper's parameters are renamed to the caller's argument texts
+        if depth < 2:
+            for c in walk_no_nested(fn):
+                if isinstance(c, ast.Call):
+                    h = _helper_of(ctx, mod, qual, c)
+                    if h is not None and h[1] != qual and h[1] not in R4_ANCHORS and _write_opens(h[2]):
+                        bound = {k: norm(v) for k, v in _bind_args(c, h[2], h[3]).items()}
+                        if rename:
+                            bound = {k: _rename_chain(v, rename) for k, v in bound.items()}
+                        return _scratch_name(ctx, h[0], h[1], required, bound, depth + 1, (mod, qual, fn, _bind_args(c, h[2], h[3])))
+        raise Undecided(f'{qual}: scratch file is not opened for writing here or in a helper called from here')
     sc = _scanner(ctx) if ctx.repo.exists('mesonbuild/utils/core.py') else None
     for op in opens:
         path = op.args[0]
         facts = _digest_facts(ctx, sc, mod, qual, fn, [path])
+        from_caller = False
+        caller_origins: T.Set[str] = set()
+        if facts is None and caller is not None:
+            # the name (or part of it) arrives through a parameter: go on in the caller with the argument bound to it
+            reached = [n.id for n in _expr_closure(fl, path) if isinstance(n, ast.Name) and n.id in caller[3]]
+            if reached:
+                roots = [caller[3][r] for r in reached]
+                facts = _digest_facts(ctx, sc, caller[0], caller[1], caller[2], roots)
+                from_caller = facts is not None
+                cfl = Flow(caller[2], nested=False)
+                for r in roots:
+                    caller_origins |= cfl.origins(r)
         if facts is None:
-            vol = sorted(x for x in fl.origins(path) if _volatile(x))
+            vol = sorted(x for x in (fl.origins(path) | caller_origins) if _volatile(x))
             if vol:
                 ctx.violation(mod, qual, op, f'the scratch file name {short(path, 50)} is derived from {vol} instead of a content digest: it changes '
                               'between regenerations, so the command line in build.ninja changes', op)
@@ -1011,12 +1144,14 @@ def _scratch_name(ctx: RuleCtx, mod: Module, qual: str, required: T.Dict[str, T.
             continue
         where = '' if facts.qual == qual else f' (computed in {facts.qual})'
         ctx.ok(f'{qual}: name of `{short(op, 50)}` contains a digest ({facts.n_digests} digest call(s)){where}')
-        bad = sorted(x for x in (fl.origins(path) | facts.origins) if _volatile(x))
+        bad = sorted(x for x in (fl.origins(path) | facts.origins | caller_origins) if _volatile(x))
         ctx.require(not bad, f'{qual}: nothing volatile (id/time/random/counter) flows into the name of `{short(op, 40)}` ({facts.n_fed} digest inputs)',
                     mod, qual, op,
                     f'the scratch file name depends on {bad}: it changes between regenerations, so the command line in build.ninja changes')
         for fm, fq, construct, msg, node in facts.feeder_findings:
             ctx.violation(fm, fq, construct, msg, node)
+        inputs = {_rename_chain(x, rename) for x in facts.inputs} if rename and not from_caller else facts.inputs
+        facts = facts._replace(inputs=inputs)
         for what, alts in required.items():
             ok = any(a in facts.inputs for a in alts)
             if not ok and facts.helper_calls:
